@@ -37,6 +37,157 @@ META = {
     "assumptions": ["the property tree (parent/children) is finite and acyclic", "for loops over finite containers terminate"],
 }
 
+# ------------------------------------------------------------------------------------------------------------------
+# R11.7 divisors
+RES_ATTRS = ("scheduleGranularity",)
+# fields that hold the timing resolution (or a positive constant chosen by the code), with the reason
+RES_FIELDS = {
+    "resolution": "Scoreboard.resolution = the project's timing resolution",
+    "slot_duration": "Limit.slot_duration = the project's timing resolution",
+    "period": "Limit.period = one of the day / week / month constants, or the length of the limit's interval",
+}
+RES_PARAMS = {"granularity", "clock", "resolution", "slot_duration"}
+
+
+def _nonzero(fn, e, site, facts, res, depth=0):
+    """(verdict, why): True = provably non-zero, "res" = non-zero iff the timing resolution is positive, False = can be zero,
+    None = not decided."""
+    if depth > 8:
+        return None, "resolution depth"
+    if isinstance(e, ast.Constant):
+        if isinstance(e.value, (int, float)) and not isinstance(e.value, bool):
+            return (e.value != 0), f"constant {e.value}"
+        return None, "non-numeric constant"
+    t = norm(e).replace('"', "'")
+    # a must-fact at the site says so
+    if site is not None and facts is not None:
+        for cl in facts.at(site):
+            if len(cl) == 1:
+                (ft, pol), = tuple(cl)
+                ft = ft.replace('"', "'")
+                if (pol is True and ft in (f"{t} > 0", f"{t} != 0", t, f"0 < {t}", f"{t} > 0.0", f"{t} >= 1")) or \
+                   (pol is False and ft in (f"{t} <= 0", f"{t} == 0", f"not {t}", f"{t} <= 0.0", f"{t} == 0.0")):
+                    return True, f"guard {ft} is {pol}"
+    if isinstance(e, ast.BoolOp) and isinstance(e.op, ast.Or):
+        v, why = _nonzero(fn, e.values[-1], None, None, res, depth + 1)
+        if v is True:
+            return True, f"`or` default {norm(e.values[-1])}"
+        return v, why
+    if isinstance(e, ast.BinOp) and isinstance(e.op, (ast.Mult, ast.Div)):
+        a, wa = _nonzero(fn, e.left, site, facts, res, depth + 1)
+        b, wb = _nonzero(fn, e.right, site, facts, res, depth + 1)
+        if a is False or b is False:
+            return False, wa if a is False else wb
+        if a is None or b is None:
+            return None, wa if a is None else wb
+        return ("res" if "res" in (a, b) else True), f"{wa}; {wb}"
+    if isinstance(e, ast.Call) and isinstance(e.func, ast.Name) and e.func.id in ("float", "int", "abs") and len(e.args) == 1 and e.func.id != "int":
+        return _nonzero(fn, e.args[0], site, facts, res, depth + 1)
+    if isinstance(e, ast.Call) and isinstance(e.func, ast.Name) and e.func.id == "max" and any(
+            isinstance(a, ast.Constant) and isinstance(a.value, (int, float)) and a.value > 0 for a in e.args):
+        return True, "max(positive constant, ...)"
+    # attribute-protocol reads
+    if isinstance(e, ast.Call) and isinstance(e.func, ast.Attribute) and e.func.attr == "get" and e.args and isinstance(e.args[0], ast.Constant):
+        if e.args[0].value in RES_ATTRS:
+            return "res", "timing resolution"
+        return False, f"declared value {t[:50]} (0 is a legal declaration)"
+    if isinstance(e, ast.Subscript) and isinstance(e.slice, ast.Constant) and e.slice.value in RES_ATTRS:
+        return "res", "timing resolution"
+    if isinstance(e, ast.Attribute) and isinstance(e.value, ast.Name) and e.value.id == "self" and e.attr in RES_FIELDS:
+        return "res", RES_FIELDS[e.attr]
+    if isinstance(e, ast.Name):
+        vals = res(e)
+        # `if not d: d = <non-zero>` (or `d <= 0`, `d == 0`, `d is None or d == 0`) before the site repairs a zero
+        if site is not None:
+            for i in own_nodes(fn):
+                if isinstance(i, ast.If) and not i.orelse and i.lineno < getattr(site.ast, "lineno", 0):
+                    tt = norm(i.test)
+                    zero_tests = (f"not {e.id}", f"{e.id} == 0", f"{e.id} <= 0", f"{e.id} is None or {e.id} == 0", f"{e.id} is None or {e.id} <= 0",
+                                  f"not {e.id} or {e.id} <= 0", f"{e.id} == 0.0", f"{e.id} <= 0.0")
+                    asg = [a for a in i.body if isinstance(a, ast.Assign) and len(a.targets) == 1 and norm(a.targets[0]) == e.id]
+                    later = [d for d in own_nodes(fn) if isinstance(d, (ast.Assign, ast.AugAssign)) and d.lineno > i.end_lineno
+                             and d.lineno < getattr(site.ast, "lineno", 0)
+                             and any(norm(t_) == e.id for t_ in (d.targets if isinstance(d, ast.Assign) else [d.target]))]
+                    if tt in zero_tests and asg and not later and all(_nonzero(fn, a.value, None, None, res, depth + 1)[0] is True for a in asg):
+                        return True, f"`if {tt}: {norm(asg[0])}` before the division"
+        if not vals:
+            if e.id in fn.params and e.id in RES_PARAMS:
+                return "res", f"parameter {e.id} carries the timing resolution"
+            return None, f"{e.id}: no local definition"
+        out = []
+        for v in vals:
+            out.append(_nonzero(fn, v, None, None, res, depth + 1))
+        if any(o[0] is False for o in out):
+            return next(o for o in out if o[0] is False)
+        if any(o[0] is None for o in out):
+            return next(o for o in out if o[0] is None)
+        return ("res" if any(o[0] == "res" for o in out) else True), out[0][1]
+    return None, f"{t[:40]}: shape not interpreted"
+
+
+def divisor_rule(ctx: Ctx, reach):
+    """R11.7: no division on the paths of parse / schedule can divide by zero: each divisor is a non-zero constant, has a
+    non-zero `or` default, is guarded by a positivity fact on every path, or is the timing resolution -- which the parser
+    must reject unless positive."""
+    from ..order import local_resolver
+    repo = ctx.repo
+    n = 0
+    for fn in sorted(reach, key=lambda f: f.key):
+        sites = [x for x in own_nodes(fn) if isinstance(x, ast.BinOp) and isinstance(x.op, (ast.Div, ast.FloorDiv, ast.Mod))
+                 and not isinstance(x.right, ast.Constant) and not (isinstance(x.left, ast.Constant) and isinstance(x.left.value, str))
+                 and not isinstance(x.left, ast.JoinedStr) and not isinstance(x.right, ast.JoinedStr)
+                 and not (isinstance(x.left, ast.Call) and norm(x.left.func).split(".")[-1] in ("Path", "PurePath"))]
+        if not sites:
+            continue
+        g = cfg_of(fn)
+        facts = facts_of(fn)
+        res = local_resolver(fn.node)
+        for x in sites:
+            site = g.node_containing(x)
+            # `a / d if d > 0 else c`
+            p = getattr(x, "_parent", None)
+            guard = None
+            while p is not None and not isinstance(p, ast.stmt):
+                if isinstance(p, ast.IfExp) and any(y is x for y in ast.walk(p.body)):
+                    guard = p.test
+                p = getattr(p, "_parent", None)
+            v, why = _nonzero(fn, x.right, site, facts, res)
+            if v is not True and guard is not None and norm(guard).replace(" ", "") in (f"{norm(x.right)}>0".replace(" ", ""), f"{norm(x.right)}!=0".replace(" ", ""), norm(x.right).replace(" ", "")):
+                v, why = True, f"conditional expression guard {norm(guard)}"
+            n += 1
+            if v is None:
+                ctx.ob("R11.7", f"{fn.qual}: {norm(x)[:70]} -- divisor not decided ({why})", (fn, x), None, why, info=True)
+                continue
+            ok = v is not False
+            ctx.ob("R11.7", f"{fn.qual}: {norm(x)[:70]}", (fn, x), ok,
+                   (why if v is True else f"non-zero because the timing resolution is positive ({why})") if ok else
+                   f"the divisor {norm(x.right)} can be zero ({why}) and nothing on the path excludes it: ZeroDivisionError escapes from scheduling",
+                   key=key_of("R11.7", fn, x.right, "divisor"))
+    # the assumption the `res` verdicts rest on: the parser hands on a positive timing resolution only
+    tr = repo.func("TJPTransformer.timingresolution")
+    g = cfg_of(tr)
+    facts = facts_of(tr)
+    res = local_resolver(tr.node)
+    rets = [r for r in own_nodes(tr) if isinstance(r, ast.Return) and isinstance(r.value, ast.Tuple) and len(r.value.elts) == 2]
+    if not rets:
+        raise AnchorMissing("TJPTransformer.timingresolution: no (name, seconds) return")
+    for r in rets:
+        val = r.value.elts[1]
+        v, why = _nonzero(tr, val, g.node_containing(r), facts, lambda e: [], 0) if not isinstance(val, ast.Name) else (None, "")
+        if isinstance(val, ast.Name):
+            site = g.node_containing(r)
+            v, why = _nonzero(tr, ast.Constant(value=None), None, None, res)
+            # a name: needs a positivity fact at the return (its definitions are computed from the declared number)
+            v, why = (True, "fact") if any(len(cl) == 1 and tuple(cl)[0] in (((f"{val.id} > 0"), True), ((f"{val.id} <= 0"), False), ((f"{val.id} >= 1"), True), ((f"{val.id} < 1"), False))
+                                           for cl in facts.at(site)) else (False, f"{val.id} is computed from the declared number")
+        ok = v is True
+        ctx.ob("R11.7", f"{tr.qual}: returns {norm(val)}", (tr, r), ok,
+               "a positive number of seconds" if ok else
+               f"the timing resolution handed to the model can be 0 ({why}; e.g. `timingresolution 0min`): every slot computation divides by it",
+               key=key_of("R11.7", tr, val, "resolution positive"))
+    ctx.floor("R11.7", 12)
+
+
 TREE_WORDS = ("children", "kids", "parent", "parents", "adoptees", "stepParents", "ancestors")
 
 
@@ -48,6 +199,7 @@ def run(ctx: Ctx):
     roots = roots + framework_callbacks(repo)
     reach = ctx.cg.reach(roots)
     ctx.stats["functions_reachable"] = len(reach)
+    divisor_rule(ctx, reach)
     # ---------------------------------------------------------------- R11.1
     n_while = 0
     undecided = []
